@@ -44,13 +44,19 @@ func init() {
 		"verifBytesEq":       func(x *Exec, fn *ssa.Function, a []Value) Value { return x.bytesEq(a[0].(SliceV), a[1].(SliceV)) },
 		"verifRandBytes":     pRandBytes,
 		"verifDefaultSource": func(x *Exec, fn *ssa.Function, a []Value) Value { return nopFuncV{} },
+		"verifMark": func(x *Exec, fn *ssa.Function, a []Value) Value {
+			if x.logEvents {
+				x.events = append(x.events, AccessEvent{Sync: "mark:" + constString(a[0], "verifMark label")})
+			}
+			return nil
+		},
 		"verifVerdict":       nil, // executed from SSA
 	}
 	delete(verifPrims, "verifVerdict")
 }
 
 // harness functions named verif* that are ordinary Go and must be executed, not intercepted
-var verifExecuted = map[string]bool{"verifVerdict": true, "verifWarm": true, "verifWarmN": true, "verifLangSel": true, "verifSentence12": true, "verifRespell": true}
+var verifExecuted = map[string]bool{"verifVerdict": true, "verifWarm": true, "verifWarmN": true, "verifLangSel": true, "verifC12Op": true, "verifHex": true, "verifToHex": true, "verifSentence12": true, "verifRespell": true}
 
 func constString(v Value, what string) string {
 	s, ok := v.(string)
